@@ -2624,7 +2624,12 @@ class CollocatedIntegratedOptimizationProblem(OptimizationProblem, metaclass=ABC
         else:
             tf = xf = ca.MX()
         t = ca.vertcat(t0, history_times[history_indices], times[indices], tf)
-        x = ca.vertcat(x0, history[history_indices], state[indices[0] : indices[-1] + 1], xf)
+        if len(indices) > 0:
+            state = state[indices[0] : indices[-1] + 1]
+        else:
+            # No collocation time stamps inside the window
+            state = ca.MX()
+        x = ca.vertcat(x0, history[history_indices], state, xf)
 
         return x, t
 
